@@ -117,6 +117,46 @@ Fixpoint kind_of (k : string) (cfg : config) : option kind :=
 Fixpoint get (k : string) (cfg : config) : option value :=
   match cfg with [] => None | (n, _, v) :: r => if n =? k then Some v else get k r end.
 
+(* ---------- src/hermes2go/hermes_main.go:228  args := strings.Fields(line) ----------
+   the batch line is split around every run of white space (ASCII: blank, \t, \n, \v, \f, \r; batch files are
+   ASCII), leading and trailing white space yields no token *)
+Definition is_ws (c : ascii) : bool :=
+  let n := N_of_ascii c in (N.eqb n 32 || N.eqb n 9 || N.eqb n 10 || N.eqb n 11 || N.eqb n 12 || N.eqb n 13)%N.
+
+Fixpoint fields_aux (cur : string) (s : string) : list string :=
+  match s with
+  | EmptyString => match cur with EmptyString => [] | _ => [cur] end
+  | String c r =>
+      if is_ws c then match cur with EmptyString => fields_aux EmptyString r | _ => cur :: fields_aux EmptyString r end
+      else fields_aux (cur ++ String c EmptyString) r
+  end.
+Definition fields (line : string) : list string := fields_aux EmptyString line.
+
+(* vocabulary for "the arguments are separated by arbitrary white space": t1 sep1 t2 sep2 ... tn sepn *)
+Fixpoint all_ws (s : string) : bool := match s with EmptyString => true | String c r => is_ws c && all_ws r end.
+Fixpoint no_ws (s : string) : bool := match s with EmptyString => true | String c r => negb (is_ws c) && no_ws r end.
+Definition tok_ok (t : string) : Prop := no_ws t = true /\ t <> EmptyString.
+Fixpoint render (pairs : list (string * string)) : string :=
+  match pairs with [] => EmptyString | (t, sep) :: r => t ++ sep ++ render r end.
+(* every separator is white space; all but the last are non-empty *)
+Fixpoint seps_ok (pairs : list (string * string)) : Prop :=
+  match pairs with
+  | [] => True
+  | (_, sep) :: r => all_ws sep = true /\ (r <> [] -> sep <> EmptyString) /\ seps_ok r
+  end.
+
+(* ---------- hermes/run.go:37-81: the glue between the batch line and readConfig ----------
+   Run builds ONE argument map, reads project/plotNr/... from it, hands it to ParseCropOverwrites (which picks
+   CropFile=... and c_...=... and must only READ the map) and then hands the SAME map to readConfig.
+   crop_view models what ParseCropOverwrites returns besides the map it was given. *)
+Definition crop_view (m : list (string * string)) : list (string * string) :=
+  match assoc "CropFile" m with
+  | None => []
+  | Some _ => filter (fun e : string * string => prefix "c_" (fst e)) m
+  end.
+Definition crop_step (m : list (string * string)) : list (string * string) * list (string * string) := (crop_view m, m).
+Definition glue_args (line : string) : list (string * string) := snd (crop_step (arg_map (fields line))).
+
 Section Override.
   Variable pf : string -> option Z.            (* strconv.ParseFloat(s, 64): bits, None = error *)
 
@@ -211,4 +251,7 @@ Section Override.
   Definition read_config_seq (root : string) (s : schema) (st : option (string -> option value))
              (hist : list (list string)) (tokens : list string) : option config :=
     option_map (fixup root) (last (run_seq s st (map arg_map (hist ++ [tokens]))) None).
+  (* one batch line of the real program, from the line text: tokenise, build the map, crop step, readConfig *)
+  Definition line_config (s : schema) (f : string -> option value) (line : string) : option config :=
+    effective s f (glue_args line).
 End Override.
